@@ -5,6 +5,7 @@ Statements only (plus non-vacuity examples); helper lemmas live in `Lockable/Pro
 import Lockable.Proofs.Steps3
 import Lockable.Proofs.Layers
 import Lockable.Proofs.Transient
+import Lockable.Proofs.SpecTrace
 namespace Lockable
 
 /-- `h` is a guard for key `k`: a live handle in state `holding` or `stamped`, however it was created
@@ -94,5 +95,27 @@ example :
     let s := run (State.init .hashMap) [.lookup 1 7, .lookup 2 7, .enqueue 2, .lookup 3 7, .tryKey 3]
     IsGuard s 1 7 ∧ s.hs 2 = some ⟨7, 0, .queued⟩ ∧ s.hs 3 = some ⟨7, 0, .failedTry⟩ := by
   refine ⟨⟨⟨7, 0, .holding⟩, by decide, rfl, rfl⟩, by decide, by decide⟩
+
+
+/-- History form (Theorem C + `history_exclusive`): in the abstract history of every run of the core model — any
+container kind, any interleaving of atomic sections of any number of threads — between two events that make a
+guard for the same key (whichever way: locking an absent key, a successful try, an uncontended or a granted wait,
+an eviction or expiry scan), the first guard is released. Guard lifetimes on one key never overlap. -/
+theorem C01_history_exclusive (kind : Kind) (as : List Act) (k h₁ h₂ : Nat) (pre mid post : List SEv) (e₁ e₂ : SEv)
+    (hdec : evsRun (State.init kind) as = pre ++ e₁ :: (mid ++ e₂ :: post))
+    (hm₁ : e₁.makesGuard k = some h₁) (hm₂ : e₂.makesGuard k = some h₂) : SEv.release h₁ k ∈ mid := by
+  have := lin_reachable kind as
+  rw [hdec] at this
+  exact history_exclusive k h₁ h₂ pre mid post e₁ e₂ _ _ this hm₁ hm₂
+
+/-- … and the guard of the abstraction is exactly the guard of the model (`IsGuard`). -/
+theorem C01_abstract_guard (kind : Kind) (as : List Act) (h k : Nat) :
+    (absSpec (run (State.init kind) as)).held k = some h ↔ IsGuard (run (State.init kind) as) h k :=
+  held_iff_guard _ (inv_reachable kind as) h k
+
+/-- non-vacuity of `C01_history_exclusive`: two successive guards of key 7, the second one granted to a waiter -/
+example :
+    evsRun (State.init .hashMap) [.lookup 1 7, .lookup 2 7, .enqueue 2, .stamp 1, .release 1, .acquire 2] =
+      [] ++ SEv.acquire 1 7 :: ([.wait 2 7, .release 1 7] ++ SEv.grant 2 7 :: []) := by decide
 
 end Lockable
